@@ -66,8 +66,15 @@ def rule_pn53x_build(report, prog):
     data = find(f.node, 'data = bytearray([212, cmd_code]) + cmd_data')
     dat_any = [b for n, b in find(f.node, 'data = $E') if 'cmd_code' in norm(b['E'])]
     tail = find(f.node, 'tail = $E')
+    def _through_local(e):
+        # the frame may be put together in a local first: follow a name that is bound exactly once
+        if isinstance(e, ast.Name):
+            b_ = [a for a in walk_no_nested(f.node) if isinstance(a, ast.Assign) and any(norm(t) == e.id for t in a.targets)]
+            if len(b_) == 1:
+                return b_[0].value
+        return e
     wr = [c for c in ast.walk(f.node) if isinstance(c, ast.Call) and norm(c.func) == 'self.write_frame' and c.args
-          and 'head' in norm(c.args[0])]
+          and 'head' in norm(_through_local(c.args[0]))]
     sw = [t for t in walk_no_nested(f.node) if isinstance(t, ast.If) and 'len(cmd_data)' in norm(t.test)
           and any(isinstance(x, ast.Assign) and norm(x.targets[0]) == 'head' for x in t.body)]
     if len(heads) != 2 or len(app) != 1 or len(dat_any) != 1 or len(tail) != 1 or len(wr) != 1 or len(sw) != 1:
@@ -98,7 +105,7 @@ def rule_pn53x_build(report, prog):
                     h.append(const(app[0].args[0], dict(env, head=h)))
                 d = bytearray(const(dat_any[0]['E'], env))
                 t = bytearray(const(tail[0][1]['E'], dict(env, data=d)))
-                fr = const(wr[0].args[0], dict(env, head=h, data=d, tail=t))
+                fr = const(_through_local(wr[0].args[0]), dict(env, head=h, data=d, tail=t))
                 why = valid_pn53x_frame(fr, code, payload)
             except (ValueError, struct.error, OverflowError) as e:
                 why = 'construction raises %s: %s' % (type(e).__name__, e)
